@@ -297,6 +297,7 @@ _EXTRA = {
     'R96b': (_ALL, 'R96b: a function that returns no value on any exit is not used for its result by any caller.'),
     'R102': (['C20', 'C16'], 'R102: every documented option is defined by an add_argument call with the documented action / type / nargs / default / dest (spec/cli.json).'),
     'R103': (['C20', 'C05'], 'R103: the key-list type function splits at commas and rejects unknown names under the membership fact; _make_sort_key looks names up on the model, appends found methods, stores True flags for the others, and returns (function, flags).'),
+    'R104': (_ALL, 'R104: in no loop does a variable that is set from the current element only on some paths reach a use in a later iteration without having been set again (reaching definitions through the loop head plus a definition-free path from the head to the use).'),
     'R87': (['C20', 'C17'], 'R87: the option tables main() builds once are only read by process/_process_in/_process_out (alias-following over what is unpacked from them).'),
     'R86': (['C01', 'C07', 'C09', 'C20'], 'R86: an argument annotated as Iterable / Iterator / file is walked at most once on every path (a second walk of a file or generator finds nothing).'),
 }
